@@ -138,8 +138,10 @@ def h_dest(ctx, M, NMAX, ck="crc32", hiccup=False):
 def h_sender(ctx):
     """closure requested, no Finished PDU before the check timer expires => cancel with Check Limit Reached"""
     w = World(ctx)
-    sc = hsrc.SrcScenario(ctx, w, mode=UNACK, closure=True, M=2)
-    sc.put()
+    # closure may be requested by the remote entity's configuration or by the put request (overriding it)
+    how = ctx.pick("closure_from", ["mib", "request_over_mib_false", "request_and_mib"])
+    sc = hsrc.SrcScenario(ctx, w, mode=UNACK, closure=how != "request_over_mib_false", M=2)
+    sc.put(closure=None if how == "mib" else True)
     o = sc.sm()
     sc.remember_conf()
     for _ in range(4):
